@@ -491,6 +491,11 @@ func (w *world) targetForm(i int, targetDomain bool) int {
 		}
 	}
 	s := w.servers[i]
+	if fb := s.f["unsafeFallbackAddress"]; s.is2022() && fb != nil && fb.Mode == mValue {
+		// nobody chains into this server, so the only requests it routes are fallbacks of
+		// unauthenticated connections, and the fallback address is an IP address
+		return formIP
+	}
 	if s.proto == "direct" {
 		if strings.HasPrefix(s.tunnel, "echo.test") {
 			return formDomain
@@ -550,6 +555,18 @@ func (w *world) decorate(rt *rapid.T, r *route, form int) {
 			r.extra["toDomainSets"] = []string{w.domainSets[0].name}
 		} else {
 			r.extra["toDomains"] = []string{"echo.test"}
+		}
+		// the matched domain must resolve into loopback: needs a resolver, whatever
+		// disableNameResolutionForIPRules says
+		if canResolve && rapid.Bool().Draw(rt, r.name+".expectedIP") {
+			if len(w.prefixSets) > 0 && rapid.Bool().Draw(rt, r.name+".expectedPS") {
+				r.extra["toMatchedDomainExpectedPrefixSets"] = []string{w.prefixSets[0].name}
+			} else {
+				r.extra["toMatchedDomainExpectedPrefixes"] = []string{"127.0.0.0/8"}
+			}
+			if rapid.Bool().Draw(rt, r.name+".expectedDisableNR") {
+				r.f["disableNameResolutionForIPRules"] = &dfield{Mode: mValue, Val: true}
+			}
 		}
 	}
 }
@@ -791,6 +808,49 @@ func (w *world) mutations(rt *rapid.T) []mutation {
 		}
 		add("dangling", "route-fromPrefixSets-new", func() { r.extra["fromPrefixSets"] = []string{"ghost"} })
 	}
+	// criteria that need name resolution in a world without resolvers
+	if len(w.dns) == 0 {
+		needSet := func() string {
+			if len(w.prefixSets) == 0 {
+				w.prefixSets = append(w.prefixSets, &setCfg{name: "psx", file: "psx.txt"})
+				w.files["psx.txt"] = "127.0.0.0/8\n"
+			}
+			return w.prefixSets[0].name
+		}
+		clear := func(r *route) {
+			for _, k := range []string{"toPrefixes", "toPrefixSets", "toDomains", "toDomainSets", "toMatchedDomainExpectedPrefixes", "toMatchedDomainExpectedPrefixSets"} {
+				delete(r.extra, k)
+			}
+			delete(r.f, "disableNameResolutionForIPRules")
+		}
+		for _, r := range w.routes {
+			add("missing-resolver", "toPrefixes-alone", func() { clear(r); r.extra["toPrefixes"] = []string{"127.0.0.0/8"} })
+			add("missing-resolver", "toPrefixSets-alone", func() { clear(r); r.extra["toPrefixSets"] = []string{needSet()} })
+			add("missing-resolver", "toPrefixSets-disable-false", func() {
+				clear(r)
+				r.extra["toPrefixSets"] = []string{needSet()}
+				r.f["disableNameResolutionForIPRules"] = &dfield{Mode: mEmpty}
+			})
+			for _, dis := range []bool{false, true} {
+				add("missing-resolver", fmt.Sprintf("expectedPrefixes-disable=%v", dis), func() {
+					clear(r)
+					r.extra["toDomains"] = []string{"echo.test"}
+					r.extra["toMatchedDomainExpectedPrefixes"] = []string{"127.0.0.0/8"}
+					if dis {
+						r.f["disableNameResolutionForIPRules"] = &dfield{Mode: mValue, Val: true}
+					}
+				})
+				add("missing-resolver", fmt.Sprintf("expectedPrefixSets-disable=%v", dis), func() {
+					clear(r)
+					r.extra["toDomains"] = []string{"echo.test"}
+					r.extra["toMatchedDomainExpectedPrefixSets"] = []string{needSet()}
+					if dis {
+						r.f["disableNameResolutionForIPRules"] = &dfield{Mode: mValue, Val: true}
+					}
+				})
+			}
+		}
+	}
 	for _, d := range w.domainSets {
 		add("duplicate-set", "dup-domain-set", func() { c := *d; w.domainSets = append(w.domainSets, &c) })
 	}
@@ -925,6 +985,16 @@ func (w *world) probes(seed uint64) []Probe {
 	var ps []Probe
 	n := uint64(0)
 	next := func() uint64 { n++; return seed + n }
+	// port-scanner behaviour against every TCP listener first; the echoes that follow are the canary
+	for _, s := range w.servers {
+		for _, l := range s.tcp {
+			ps = append(ps, Probe{Kind: "scan-close", Server: s.name, Addr: l.addr()}, Probe{Kind: "scan-byte", Server: s.name, Addr: l.addr(), Seed: next()})
+		}
+	}
+	if w.api != nil {
+		a := fmt.Sprintf("127.0.0.1:@@P%d@@", w.api.port)
+		ps = append(ps, Probe{Kind: "scan-close", Addr: a}, Probe{Kind: "scan-byte", Addr: a, Seed: next()})
+	}
 	for _, s := range w.servers {
 		for li, l := range s.tcp {
 			p := Probe{Server: s.name, Addr: l.addr(), Target: w.target, Seed: next(), Size: 1 + int(next()%1200), User: s.authUser, Pass: s.authPass,
@@ -943,7 +1013,11 @@ func (w *world) probes(seed uint64) []Probe {
 				p.Size = fixedHeaderLen(s)
 				rp := s.f["rejectPolicy"]
 				fb := s.f["unsafeFallbackAddress"]
-				p.ExpectRST = (rp == nil || rp.Mode != mValue) && (fb == nil || fb.Mode != mValue)
+				hasFB := fb != nil && fb.Mode == mValue
+				p.ExpectRST = (rp == nil || rp.Mode != mValue) && !hasFB
+				// with a fallback address the bytes that failed to authenticate are relayed to it
+				// (the echo target) through the server's own route
+				p.ExpectFB = hasFB && w.pathOK(s.upTCP, false, 0)
 			}
 			ps = append(ps, p)
 			if li == 0 && p.Kind != "reject" {
